@@ -819,11 +819,13 @@ theorem iteAux_spec {cond : LinComb} : ∀ (fuel : Nat) {t f r : Val} {s s' : St
       exact ret_spec hinv ht
     · split at h
       · split at h
-        · obtain ⟨rs, s1, h1, h⟩ := bind_ok.mp h
+        · obtain ⟨_, h⟩ := ite_else_raise_ok h          -- `len(truev) == len(falsev)`
+          obtain ⟨rs, s1, h1, h⟩ := bind_ok.mp h
           obtain ⟨rfl, rfl⟩ := pure_ok' h
           obtain ⟨le1, f1, inv1, g1⟩ := hz _ _ _ _ _ hinv hc (GoodV_list.mp ht) (GoodV_list.mp hf) h1
           exact ⟨le1, f1, inv1, GoodV_list.mpr g1⟩
-        · obtain ⟨rs, s1, h1, h⟩ := bind_ok.mp h
+        · obtain ⟨_, h⟩ := ite_else_raise_ok h
+          obtain ⟨rs, s1, h1, h⟩ := bind_ok.mp h
           obtain ⟨rfl, rfl⟩ := pure_ok' h
           obtain ⟨le1, f1, inv1, g1⟩ := hz _ _ _ _ _ hinv hc (GoodV_list.mp ht) (GoodV_tuple.mp hf) h1
           exact ⟨le1, f1, inv1, GoodV_list.mpr g1⟩
